@@ -91,7 +91,8 @@ def run_property(mod, tier, seed, only=None):
             funcs.update(functions_entered(h, cfg))
         except BaseException as e:  # profiling is best effort
             pass
-        dl = sp.get('deadline_s', 1500 if tier == 'thorough' else None)
+        # caps: a pathological tree (e.g. state leaking between calls) must not hang the check; reaching a cap = not exhaustive
+        dl = sp.get('deadline_s', 1500 if tier == 'thorough' else 480)
         if os.environ.get('SYMX_DEADLINE_S'):
             dl = int(os.environ['SYMX_DEADLINE_S'])
         st, exhausted = explore(h, cfg, workers=sp.get('workers'), deadline_s=dl,
